@@ -12,7 +12,8 @@ use std::sync::mpsc;
 use std::time::Duration;
 
 /// commands outside the property's domain (block, leave the process, network, change files or the process
-/// environment, run other programs / test files) and the loop constructs themselves
+/// environment, run other programs / test files, write the SDK documentation to a file named by the argument) and the
+/// loop constructs themselves; the driver runs every finder process in a scratch directory of its own
 const DENY: &[&str] = &[
     "read", "sleep", "exec", "spawn", "exit", "quit", "q", "watchdog", "http_client", "wget", "ftp_get", "ftp_get_in_memory", "ftp_put",
     "ftp_put_in_memory", "ftp_list", "ftp_nlst", "rm", "mv", "cp", "writefile", "write_text_file", "appendfile", "write_binary_file",
@@ -136,7 +137,7 @@ fn pool() -> Vec<String> {
         if let Some(c) = context.commands.get(&name) {
             let call = c.aliases().first().cloned().unwrap_or(name.clone());
             let denied = DENY.iter().any(|d| *d == call) || c.aliases().iter().any(|a| DENY.iter().any(|d| d == a))
-                || ["http", "ftp", "exec", "spawn", "watchdog", "sleep", "read"].iter().any(|w| name.to_lowercase().ends_with(w));
+                || ["http", "ftp", "exec", "spawn", "watchdog", "sleep", "read", "sdkdocsgen"].iter().any(|w| name.to_lowercase().ends_with(w));
             if !denied {
                 out.push(call);
             }
